@@ -20,7 +20,7 @@ import (
 func init() {
 	Register(&Prop{
 		ID: "C13",
-		Rule: "conformant-session: breadth-first over the states of the model IRC network (users me,A,B; channels #x,#y; every legal event in every state; " +
+		Rule: "conformant-session: breadth-first over the states of the model IRC network (users me,A,B; channels #x,#y; every legal event in every state, including a silent change of A's host that only a later WHO reply reveals; " +
 			"dedupe on the canonical model state incl. the revealed-privileges view and which users' details were told); one real tracked session per (state, visible event): " +
 			"the state's shortest history + the event, tracker compared with the oracle view after EVERY event of the session; a case = one (state,event) pair, distinct = distinct model states compared; the sessions are run in the default spelling of the protocol and, one level less deep, in three others (optional PART/KICK/QUIT reasons absent or empty, NICK without and JOIN with a colon, privilege letter pairs o/h, a/v, q/h with their NAMES prefixes, topics with leading/trailing blanks and colons). " +
 			"arbitrary-lines: breadth-first over the tracker's observable structure (tracked nicks, channels, memberships, own nick over the whole token universe), " +
